@@ -1079,10 +1079,24 @@ MEMO_LOOPS = [
 ]
 
 
+_ROLES = {}
+
+
+def memo_roles(inst):
+    if inst.key not in _ROLES:
+        r = _memo_roles(inst)
+        if r is None:
+            nm = _named_locals(inst)
+            r = {k: nm[k] for k in ('pos', 'shift', 'period', 'needle')} if all(k in nm for k in ('pos', 'shift', 'period', 'needle')) else None
+        _ROLES[inst.key] = r
+    return _ROLES[inst.key]
+
+
 def memo_pos_local(inst):
     if not lookup(MEMO_LOOPS, inst.path):
         return None
-    return _named_locals(inst).get('pos')
+    r = memo_roles(inst)
+    return r['pos'] if r else None
 
 
 def _named_locals(inst):
@@ -1093,16 +1107,73 @@ def _named_locals(inst):
     return out
 
 
+def _memo_roles(inst):
+    """locals playing the roles pos / shift / period / needle in a small-period Two-Way loop.  Identified by
+    STRUCTURE (so that renaming a variable is not an alarm): `period` is the last argument, `needle` the slice
+    argument before it, `shift` is the local combined with critical_pos by cmp::max / cmp::min, `pos` is the other
+    integer local that is carried around the outer loop (assigned in the loop from its own previous value)."""
+    from .prog import sources
+    n = inst.arg_count
+    roles = {'period': n, 'needle': n - 1}
+    shift = None
+    for b, t in inst.calls():
+        cp = t['callee'].get('path', '')
+        if re.match(r'^core::cmp::(max|min)(::<.*>)?$', cp) and len(t['args']) == 2:
+            locs = []
+            for a in t['args']:
+                srcs = sources(inst, a)
+                if srcs and all(x[0] == 'proj' and x[1]['l'] <= inst.arg_count for x in srcs):
+                    continue            # a field of an argument (self.0.critical_pos)
+                if a['k'] in ('copy', 'move') and not a['p']['pr']:
+                    # follow plain copies back to the user variable
+                    l = a['p']['l']
+                    for _ in range(4):
+                        defs = [d for (bb, i, d) in inst.assignments_to(l) if i != 'term' and d['k'] == 'use' and d['op']['k'] in ('copy', 'move') and not d['op']['p']['pr']]
+                        if len(defs) == 1 and len(inst.assignments_to(l)) == 1:
+                            l = defs[0]['op']['p']['l']
+                        else:
+                            break
+                    locs.append(l)
+            if len(locs) == 1:
+                shift = locs[0]
+    if shift is None:
+        return None
+    roles['shift'] = shift
+    # pos: an integer local updated from itself (pos = pos +/- x) other than shift, declared outside the loops
+    usize = None
+    cands = {}
+    for b, i, s_ in inst.stmts():
+        if s_['k'] != 'assign' or s_['p']['pr']:
+            continue
+        l = s_['p']['l']
+        if l == shift or l <= inst.arg_count:
+            continue
+        rv = s_['rv']
+        if rv['k'] == 'use' and rv['op']['k'] in ('copy', 'move') and rv['op']['p']['pr'] and rv['op']['p']['pr'][0]['k'] == 'field':
+            # pos = move (_t.0) of a checked add/sub on pos
+            t_l = rv['op']['p']['l']
+            for (bb, ii, d) in inst.assignments_to(t_l):
+                if ii != 'term' and d['k'] in ('bin', 'checked_bin') and any(o['k'] in ('copy', 'move') and not o['p']['pr'] and o['p']['l'] == l for o in (d['a'], d['b'])):
+                    cands[l] = cands.get(l, 0) + 1
+        elif rv['k'] in ('bin', 'checked_bin') and any(o['k'] in ('copy', 'move') and not o['p']['pr'] and o['p']['l'] == l for o in (rv['a'], rv['b'])):
+            cands[l] = cands.get(l, 0) + 1
+    named = set(_named_locals(inst).values())
+    best = sorted((l for l in cands if l in named or not named), key=lambda l: -cands[l])
+    if not best:
+        return None
+    roles['pos'] = best[0]
+    return roles
+
+
 def loop_transfer(I, fr, h, body, H, backs):
     row = lookup(MEMO_LOOPS, fr.inst.path)
     if not row:
         return
     mode = row[1]
-    names = _named_locals(fr.inst)
-    need = ('pos', 'shift', 'period', 'needle')
-    if any(k not in names for k in need):
+    names = memo_roles(fr.inst)
+    if names is None:
         I.ob('MEMO', fr, fr.inst.loc, 'shift memory: variables pos / shift / period / needle identified', False,
-             f"debug names found: {sorted(names)}")
+             'neither by structure (cmp::max/min with critical_pos; self-updated position) nor by name')
         return
     from .loops import syntactic_modified
     if names['pos'] not in syntactic_modified(I, fr, body, H):
